@@ -473,6 +473,27 @@ def run(F, chk):
         rv = node.get("e")
         while is_node(rv) and rv["k"] == "Cast":
             rv = rv["e"]
+        via_lambda = None
+        if is_node(rv) and rv["k"] == "OpCall" and rv.get("op") == "()" and rv.get("args") and is_node(rv["args"][0]) and rv["args"][0]["k"] == "Ref":
+            # `return fail(2);` with `auto fail = [&](int code) { Clear(); return code; };`
+            for d_ in walk(ld["body"]):
+                if d_["k"] == "Decl":
+                    for v_ in d_.get("vars", []):
+                        i_ = v_.get("init")
+                        while is_node(i_) and i_["k"] in ("Cast", "Construct") and (i_.get("e") is not None or len(i_.get("args", [])) == 1):
+                            i_ = i_["e"] if i_.get("e") is not None else i_["args"][0]
+                        if v_["id"] == rv["args"][0].get("id") and is_node(i_) and i_["k"] == "Lambda" and i_.get("fid") in F.fns:
+                            via_lambda = F.fns[i_["fid"]]
+        if via_lambda is not None:
+            n8 += 1
+            ok = any(x["k"] == "Call" and x.get("fn") == "nifly::NifFile::Clear" for x in walk(via_lambda.get("body") or {})) or \
+                ("D", "header read") not in st
+            chk.instance(R8, ok=ok, sample={"fn": "NifFile::Load", "returns": "through a local lambda", "at": node.get("loc")})
+            if not ok:
+                chk.violation("R16.8", "C16/R16.8:Load:return via lambda", where(loads8[0], node),
+                              "NifFile::Load returns an error code through a local lambda that does not clear the model, after "
+                              "NiHeader::Get has filled the header")
+            continue
         if not (is_node(rv) and isinstance(rv.get("val"), int) and rv["val"] != 0):
             continue
         n8 += 1
